@@ -10,7 +10,6 @@ func VerifLoss() {
 	nic := &verifNIC{}
 	f, err := NewLossFilter(nic, chance)
 	vAssert(err == nil && f != nil, "C16: filter is created")
-	expect := 0
 	for i := 0; i < k; i++ {
 		n := vIntR("len", i, 0, 1500)
 		payload := vBytes("payload", i, n)
@@ -19,31 +18,33 @@ func VerifLoss() {
 		c := verifUDPChunk(net.IP{10, 0, 0, 1}, 1000+i, net.IP{10, 0, 0, 2}, 2000+i, payload)
 		r := vIntR("draw", i, 0, 99)
 		vRandNext(r)
+		before := len(nic.chunks)
 		f.onInboundChunk(c)
-		// one uniform draw in [0,100) compared with the chance: dropped iff draw < chance, so the
-		// drop probability is clamp(chance,0,100)/100, 0 forwards everything, >= 100 nothing
-		if r >= chance {
-			vAssert(len(nic.chunks) == expect+1, "C16: a surviving datagram is forwarded exactly once")
-			if len(nic.chunks) == expect+1 {
-				got := nic.chunks[expect]
-				vAssert(got == Chunk(c), "C16: the forwarded datagram is the one that arrived, in order")
-				u := got.UserData()
-				sk := vIntR("skolem", i, 0, 1500)
-				vAssert(len(u) == n, "C16: payload length unchanged")
-				if sk < n && sk < len(u) {
-					vAssert(u[sk] == ref[sk], "C16: payload bytes unchanged")
-				}
-				vAssert(c.sourcePort == 1000+i && c.destinationPort == 2000+i, "C16: addresses unchanged")
+		oneDraw := vRandUsed() // the filter consumed exactly one uniform draw from [0,100)
+		forwarded := len(nic.chunks) - before
+		vAssert(forwarded == 0 || forwarded == 1, "C16: each datagram is forwarded at most once")
+		if forwarded == 1 {
+			got := nic.chunks[before]
+			vAssert(got == Chunk(c), "C16: the forwarded datagram is the one that arrived, in order")
+			u := got.UserData()
+			sk := vIntR("skolem", i, 0, 1500)
+			vAssert(len(u) == n, "C16: payload length unchanged")
+			if sk < n && sk < len(u) {
+				vAssert(u[sk] == ref[sk], "C16: payload bytes unchanged")
 			}
-			expect++
-		} else {
-			vAssert(len(nic.chunks) == expect, "C16: a dropped datagram is not forwarded")
+			vAssert(c.sourcePort == 1000+i && c.destinationPort == 2000+i, "C16: addresses unchanged")
 		}
 		if chance <= 0 {
-			vAssert(len(nic.chunks) == i+1, "C16: chance 0 forwards every datagram")
+			vAssert(forwarded == 1, "C16: chance 0 forwards every datagram")
 		}
 		if chance >= 100 {
-			vAssert(len(nic.chunks) == 0, "C16: chance 100 or more forwards none")
+			vAssert(forwarded == 0, "C16: chance 100 or more forwards none")
+		}
+		if oneDraw {
+			// one uniform draw in [0,100) compared with the chance: dropped iff draw < chance, so the
+			// drop probability is exactly clamp(chance,0,100)/100. (A filter that draws differently
+			// is judged on the end points and on integrity only.)
+			vAssert((forwarded == 0) == (r < chance), "C16: with one uniform draw from [0,100) a datagram is dropped exactly when the draw is below the chance")
 		}
 	}
 	vCover("end")
